@@ -11,6 +11,7 @@ import (
 	"sort"
 	"strings"
 	"sync"
+	"sync/atomic"
 	"time"
 )
 
@@ -103,6 +104,8 @@ type checker struct {
 	chunkFrom int
 }
 
+var globalJobSeq int64
+
 type jobResult struct {
 	res     *ChunkResult
 	err     error
@@ -112,10 +115,7 @@ type jobResult struct {
 
 // runWorker executes one worker process. extra args select chunk or replay.
 func (c *checker) runWorker(gomaxprocs int, timeout time.Duration, extra ...string) jobResult {
-	c.mu.Lock()
-	c.jobSeq++
-	id := c.jobSeq
-	c.mu.Unlock()
+	id := int(atomic.AddInt64(&globalJobSeq, 1))
 	out := filepath.Join(c.scratch, fmt.Sprintf("out-%d.json", id))
 	racePrefix := filepath.Join(c.scratch, fmt.Sprintf("race-%d", id))
 	args := []string{"-scenario", c.cfg.Scenario, "-prop", c.cfg.ID, "-tier", c.tier, "-seed", fmt.Sprint(c.seed),
